@@ -8,11 +8,28 @@ from pb_bss.extraction import beamformer_wrapper as bw
 
 
 def _call(fn, *a, **kw):
+    """Call with the caller's arrays snapshotted: a callee that overwrites its inputs is reported as the
+    pseudo-exception 'InputMutated' (every later clause is stated on the arrays the caller passed), and the
+    arrays are restored so the record logs what was passed."""
+    arrs = [x for x in list(a) + list(kw.values()) if isinstance(x, np.ndarray)]
+    snaps = [x.copy() for x in arrs]
     try:
         with np.errstate(all='ignore'):
-            return fn(*a, **kw), ''
+            res, exc = fn(*a, **kw), ''
     except Exception as e:
-        return None, type(e).__name__
+        res, exc = None, type(e).__name__
+    for x, s_ in zip(arrs, snaps):
+        if not np.array_equal(x, s_, equal_nan=True):
+            if x.flags.writeable:
+                x[...] = s_
+            res, exc = None, 'InputMutated'
+    return res, exc
+
+
+def flay(x):
+    """Same values, but every trailing (D, D) slice is Fortran-contiguous (what .conj().swapaxes(-1, -2),
+    scipy.linalg.inv or np.asfortranarray hand to the beamformers)."""
+    return np.ascontiguousarray(x.swapaxes(-1, -2)).swapaxes(-1, -2)
 
 
 Z = enc.azflt
@@ -48,7 +65,7 @@ def cases(tier, seed, args):
         for i in range(n * 2):
             out.append(dict(t='mvdr', stack=['single', 'bcast', 'stack', 'kstack'][i % 4], K=int(rng.integers(1, 4)), **base(i)))
         for i in range(n):
-            out.append(dict(t='lcmv', K=int(rng.integers(1, 4)), **base(i)))
+            out.append(dict(t='lcmv', K=1 + (i // 2) % 3, general=bool(i % 2), **base(i)))
         for i in range(n * 2):
             out.append(dict(t='souden', lead=int(i % 3 == 2), **base(i)))
         for i in range(n * 2):
@@ -64,16 +81,17 @@ def cases(tier, seed, args):
             out.append(dict(t='scale', which=['souden_x', 'souden_n', 'wmwf_joint', 'wmwf0'][i % 4], **base(i)))
     if prop == 'C12':
         for i in range(n * 2):
-            out.append(dict(t='gev', use_eig=bool(i % 2), lead=int(i % 3), **base(i)))
+            out.append(dict(t='gev', use_eig=bool(i % 2), lead=int(i % 3), layout='CF'[(i // 2) % 2], **base(i)))
         for i in range(n * 2):
             out.append(dict(t='pca', scaling=[None, 'trace', 'eigenvalue'][i % 3], lead=int(i % 2), **base(i)))
         for i in range(n * 2):
-            out.append(dict(t='rank1', which=['pca', 'gev'][i % 2], exact=bool(i % 4 < 2), **base(i)))
+            out.append(dict(t='rank1', which=['pca', 'gev'][i % 2], exact=bool(i % 4 < 2),
+                            scaling=[None, 'trace', 'eigenvalue'][(i // 2) % 3], layout='CF'[(i // 4) % 2], **base(i)))
         for i in range(n * 2):
             out.append(dict(t='ban', gain=float(10.0 ** rng.integers(-6, 7)), nscale=float(10.0 ** rng.integers(-12, 4)), **base(i)))
     if prop == 'C13':
         for i in range(n):
-            out.append(dict(t='apply', T=int(rng.integers(1, 12)), lead=int(i % 3), **base(i)))
+            out.append(dict(t='apply', T=int(rng.integers(1, 12)), lead=int(i % 5), **base(i)))
         for i in range(n * 2):
             out.append(dict(t='phase', lead=[0, 1, 2, 3][i % 4], zero=bool(i % 5 == 4), **base(i)))
         for i in range(n * 2):
@@ -271,8 +289,13 @@ def run_case(case):
         K = min(case['K'], D)
         phin = pd(rng, F, D, case['cond'])
         A = cvec(rng, K, F, D)
-        resp = np.zeros(K)
-        resp[rng.integers(K)] = 1.0
+        # requested responses: one-hot (the documented use) and general exactly representable gains
+        if not case.get('general'):
+            resp = np.zeros(K)
+            resp[rng.integers(K)] = 1.0
+        else:
+            resp = rng.choice([0.0, 1.0, 0.5, 2.0, -1.0, 0.25], size=K)
+            resp[rng.integers(K)] = rng.choice([0.5, 2.0, -1.0, 0.25])
         w, exc = _call(bf.get_lcmv_vector, A, resp, phin)
         its = [dict(As=[Z(A[k, f]) for k in range(K)], resp=enc.aflt(resp), phin=Z(phin[f]),
                     w=[] if w is None else Z(w[f])) for f in range(min(F, 8))]
@@ -346,6 +369,8 @@ def run_case(case):
         phin = pd(rng, F, D, min(case['cond'], 1e6))
         phix = pd(rng, F, D, 1e2)
         lead = case['lead']
+        if case.get('layout') == 'F':
+            phix, phin = flay(phix), flay(phin)
         px, pn = phix, phin
         for _ in range(lead):
             px, pn = px[None], pn[None]
@@ -380,13 +405,17 @@ def run_case(case):
         phin = pd(rng, F, D, 1e2)
         a, sigma, r1true = _rank1(rng, F, D)
         phi = r1true if case['exact'] else r1true + pd(rng, F, D, 1e2) * 0.3
+        if case.get('layout') == 'F':
+            phi, phin = flay(phi), flay(phin)
+        kw = {} if not case.get('scaling') else dict(scaling=case['scaling'])
         if case['which'] == 'pca':
-            r1, exc = _call(bw.get_pca_rank_one_estimate, phi)
+            r1, exc = _call(bw.get_pca_rank_one_estimate, phi, **kw)
         else:
             r1, exc = _call(bw.get_gev_rank_one_estimate, phi, phin)
         its = [dict(phi=Z(phi[f]), r1=[] if r1 is None else Z(r1[f]), a=Z(a[f]) if case['exact'] else [])
                for f in range(min(F, 4))]
-        return [dict(kind='rank1', items=its, exc=exc, fp=fp + f';{case["which"]};exact={case["exact"]}',
+        return [dict(kind='rank1', items=its, exc=exc,
+                     fp=fp + f';{case["which"]};exact={case["exact"]};scaling={case.get("scaling")};layout={case.get("layout")}',
                      key=f'rank1:{case["seed"]}')]
     if t == 'ban':
         phin = pd(rng, F, D, min(case['cond'], 1e4)) * case['nscale']
@@ -403,14 +432,16 @@ def run_case(case):
         return recs
     if t == 'apply':
         T = case['T']
-        lead = [2] * case['lead']
+        lead = [[], [2], [2, 2], [1], [2, 1]][case['lead']]
         w = cvec(rng, *lead, F, D)
         x = cvec(rng, *lead, F, D, T)
         out, exc = _call(bf.apply_beamforming_vector, w, x)
+        shape = [] if out is None else [int(v) for v in np.shape(out)]
         w2, x2 = w.reshape(-1, D), x.reshape(-1, D, T)
         o2 = None if out is None else out.reshape(-1, T)
         its = [dict(w=Z(w2[i]), x=Z(x2[i]), out=[] if o2 is None else Z(o2[i])) for i in range(min(len(w2), 6))]
-        return [dict(kind='apply', items=its, exc=exc, fp=fp, key=f'apply:{case["seed"]}')]
+        return [dict(kind='apply', items=its, exc=exc, shape=shape, expect_shape=[*lead, F, T], fp=fp + f';lead={lead};T={T}',
+                     key=f'apply:{case["seed"]}')]
     if t == 'phase':
         lead = [[], [2], [3, 2], [1, 3]][case['lead']]
         Fp = max(F, 3)
@@ -563,6 +594,8 @@ def _name(case, rng):
             kw['reference_channel'] = case['refch']
     if p['ok'] and p['pre'] == 'rank1_pca' and case.get('refch') == 1:
         kw['atf_kwargs'] = dict(scaling='trace')
+    if case['seed'] % 2:
+        phix, phin = flay(phix), flay(phin)
     direct, e1 = _call(bw.get_bf_vector, case['name'], phix, phin, **dict(kw))
     composed, e2 = (None, '')
     if p['ok']:
